@@ -40,14 +40,44 @@ Proof.
   rewrite (mem_is_file n (k_keys c) evs k' t (or_intror Hin) Ff Fm). reflexivity.
 Qed.
 
+Lemma flush_content : forall t, file_content (flush_trace t) = file_content t.
+Proof.
+  intros t. unfold flush_trace, file_content. destruct (t_file t); cbn; auto. rewrite app_nil_r. reflexivity.
+Qed.
+
+Lemma end_attempt_find : forall k tr,
+  option_map (fun kt : tkey * tstate => (file_content (snd kt), t_memrows (snd kt)))
+    (find (fun kt => key_eqb k (fst kt)) (end_attempt_tr tr))
+  = option_map (fun kt => (file_content (snd kt), t_memrows (snd kt)))
+    (find (fun kt => key_eqb k (fst kt)) tr).
+Proof.
+  intros k tr. induction tr as [|[k' t] tr IH]; auto. cbn [end_attempt_tr].
+  assert (Hm : t_memrows (flush_trace t) = t_memrows t) by (unfold flush_trace; destruct (t_file t); reflexivity).
+  destruct (t_mem t && negb (Nat.eqb (length (t_memrows t)) 0)); cbn [find fst];
+    destruct (key_eqb k k'); cbn [option_map snd]; rewrite ?flush_content, ?Hm; auto.
+Qed.
+
+(* a failed endCollect() followed by a second one leaves the same files and the same rows to consume *)
+Lemma end_attempt_obs : forall c st,
+  files_of c (end_attempt st) = files_of c st /\ mems_of c (end_attempt st) = mems_of c st.
+Proof.
+  intros c st. unfold files_of, mems_of, Vl, find_trace, end_attempt. cbn [m_tr with_tr].
+  split; f_equal; apply map_ext; intros k; pose proof (end_attempt_find k (m_tr st)) as H;
+    destruct (find (fun kt => key_eqb k (fst kt)) (end_attempt_tr (m_tr st))) as [[k1 t1]|];
+    destruct (find (fun kt => key_eqb k (fst kt)) (m_tr st)) as [[k2 t2]|]; cbn in *; try discriminate; auto;
+    inversion H; congruence.
+Qed.
+
 (* shape of the model observation: every threshold gives the same files; the file+consumable
    run gives the same files again, and consumeTrace returns exactly those rows *)
 Lemma model_flush_consumable : forall c,
   let B := files_of c (exec 0 (init_state (k_keys c) true false) (fst (c16_events c))) in
-  c16_model c = VL [ VL (map (fun _ => B) (k_thresholds c)); VL [B; B];
+  c16_model c = VL [ VL (map (fun _ => B) (k_thresholds c)); VL [B; B; B; B];
                      match snd (c16_events c) with Some t => V_tree t | None => VL [] end ].
 Proof.
-  intros c B. unfold c16_model. cbv zeta. rewrite mems_files.
+  intros c B. unfold c16_model. cbv zeta.
+  destruct (end_attempt_obs c (exec (hd 1000 (k_thresholds c)) (init_state (k_keys c) true true) (fst (c16_events c)))) as [-> ->].
+  rewrite mems_files.
   rewrite (files_indep c (hd 1000 (k_thresholds c)) 0 true false (fst (c16_events c))).
   fold B. f_equal. f_equal. unfold Vl. f_equal. apply map_ext. intros n.
   apply (files_indep c n 0 false false).
